@@ -528,6 +528,20 @@ class Normaliser(ast.NodeTransformer):
         return out
 
     def visit_For(self, st):
+        # `for x in (A if c else ()): B`  is  `if c: for x in A: B`;  `for x in getattr(o, "a", ()): B`  is  `if hasattr(o, "a"): for x in o.a: B`
+        it = st.iter
+        if not st.orelse and isinstance(it, ast.IfExp) and isinstance(it.orelse, (ast.Tuple, ast.List)) and not it.orelse.elts:
+            inner = ast.copy_location(ast.For(target=st.target, iter=it.body, body=st.body, orelse=[]), st)
+            return self.visit(ast.copy_location(ast.If(test=it.test, body=[inner], orelse=[]), st))
+        if not st.orelse and isinstance(it, ast.Call) and isinstance(it.func, ast.Name) and it.func.id == "getattr" and len(it.args) == 3 \
+                and not it.keywords and isinstance(it.args[1], ast.Constant) and isinstance(it.args[1].value, str) and it.args[1].value.isidentifier() \
+                and isinstance(it.args[2], (ast.Tuple, ast.List)) and not it.args[2].elts and _simple(it.args[0]):
+            has = ast.Call(func=ast.Name(id="hasattr", ctx=ast.Load()), args=[copy.deepcopy(it.args[0]), it.args[1]], keywords=[])
+            attr = ast.Attribute(value=it.args[0], attr=it.args[1].value, ctx=ast.Load())
+            inner = ast.copy_location(ast.For(target=st.target, iter=attr, body=st.body, orelse=[]), st)
+            new = ast.copy_location(ast.If(test=has, body=[inner], orelse=[]), st)
+            ast.fix_missing_locations(new)
+            return self.visit(new)
         # a literal table loop whose body only uses `continue` as a top level guard can be unrolled as well
         it0 = self.const_tables.get(st.iter.id) if isinstance(st.iter, ast.Name) else st.iter
         if isinstance(it0, (ast.Tuple, ast.List)) and not st.orelse and any(isinstance(y, ast.Continue) for b in st.body for y in ast.walk(b)):
